@@ -320,3 +320,21 @@ Section Plural.
 End Plural.
 Definition forms_view {F} (forms : list (F * pv)) : list (F * tv) := map (fun a => (fst a, gen_view (snd a))) forms.
 Definition forms_string {F} (forms : list (F * pv)) : list (F * ts) := map (fun a => (fst a, gen_string (snd a))) forms.
+
+(** ** literal keys, for any printing function
+
+    A key that holds a literal of ONE type in every locale is a [LitWrapper<T>] (macro_helpers/mod.rs): [into_view]
+    hands the literal to leptos, [build_string] is [Literal::into_str], [build_display] and the const [inner] hand
+    out the literal itself (printed by the caller).  A key whose literal type differs between locales is a builder
+    without fields: the literal is a token of [flatten] / [flatten_string] (`Display::fmt(&lit, f)`).
+    [show_lit] is THE printing of a literal - Rust's `{}` of the parsed value (bool, u64, i64, f64; for f64 the
+    shortest round-trip digits without exponent) - an oracle: every path below applies that one function. *)
+Section LitShow.
+  Variable show_lit : lit -> str.
+  Definition lw_into_view (l : lit) : tv := TStr (show_lit l).
+  Definition lw_build_string (l : lit) : str := show_lit l.
+  Definition lw_build_display (l : lit) : str := show_lit l.
+  Definition lw_inner (l : lit) : str := show_lit l.
+  Definition lit_token_view (l : lit) : tv := wrap_view [TStr (show_lit l)].
+  Definition lit_token_string (l : lit) : ts := wrap_string [ZLit (show_lit l)].
+End LitShow.
